@@ -1,13 +1,692 @@
 package main
 
+// Replay of solver counterexamples against the real code.
+//
+// For a refuted obligation of a plain function (no receiver, no closure) whose parameters are
+// integers, booleans, floats, strings and byte slices, the model's argument values are read back
+// with (get-value), turned into Go literals, and the unmodified function is called from a test that
+// is injected into the package with `go test -overlay` (nothing is written to the repository).
+//
+// A replay confirms the violation when the real code visibly breaks the obligation:
+//   safe      the call panics
+//   variant   the call does not return within the replay timeout (or panics)
+//   post      the clause, when it only uses parameters, results, len, indexing, arithmetic and
+//             comparisons, is re-evaluated in Go on the observed results and is false; a panic
+//             also counts (no function under contract may panic unless its contract says so)
+// Anything else is reported as not confirmed; the VIOLATION line then ends with
+// no-failing-input-found and the replay file carries the inputs that were tried.
+
+import (
+	"context"
+	"encoding/json"
+	"fmt"
+	"go/types"
+	"math"
+	"os"
+	"os/exec"
+	"path/filepath"
+	"strconv"
+	"strings"
+	"time"
+
+	"golang.org/x/tools/go/ssa"
+)
+
 type ReplayResult struct {
 	Confirmed bool              `json:"confirmed"`
 	Inputs    map[string]string `json:"inputs,omitempty"`
 	Test      string            `json:"test,omitempty"`
+	Source    string            `json:"test_source,omitempty"`
 	Output    string            `json:"output,omitempty"`
 	Note      string            `json:"note,omitempty"`
 }
 
+type ReplayInfo struct {
+	Fn      *ssa.Function
+	Params  []Val
+	MemBV8  string // name of the entry byte memory constant ("" if the function never touched it)
+	Results int
+}
+
+const replayMaxLen = 1 << 16
+
+func replayableType(t types.Type) string {
+	switch u := t.Underlying().(type) {
+	case *types.Basic:
+		switch {
+		case u.Info()&types.IsInteger != 0:
+			return "int"
+		case u.Info()&types.IsBoolean != 0:
+			return "bool"
+		case u.Kind() == types.Float64:
+			return "float64"
+		case u.Info()&types.IsString != 0:
+			return "string"
+		}
+	case *types.Slice:
+		if b, ok := u.Elem().Underlying().(*types.Basic); ok && (b.Kind() == types.Uint8) {
+			return "bytes"
+		}
+	}
+	return ""
+}
+
+// sexpr: minimal S-expression reader for (get-value) answers
+type sx struct {
+	atom string
+	list []*sx
+}
+
+func parseSx(s string) []*sx {
+	var stack [][]*sx
+	cur := []*sx{}
+	i := 0
+	for i < len(s) {
+		c := s[i]
+		switch {
+		case c == '(':
+			stack = append(stack, cur)
+			cur = []*sx{}
+			i++
+		case c == ')':
+			if len(stack) == 0 {
+				return cur
+			}
+			n := &sx{list: cur}
+			if n.list == nil {
+				n.list = []*sx{}
+			}
+			cur = append(stack[len(stack)-1], n)
+			stack = stack[:len(stack)-1]
+			i++
+		case c == ' ' || c == '\n' || c == '\t' || c == '\r':
+			i++
+		case c == '"':
+			j := i + 1
+			for j < len(s) && s[j] != '"' {
+				j++
+			}
+			cur = append(cur, &sx{atom: s[i:min(j+1, len(s))]})
+			i = j + 1
+		default:
+			j := i
+			for j < len(s) && !strings.ContainsRune("() \n\t\r", rune(s[j])) {
+				j++
+			}
+			cur = append(cur, &sx{atom: s[i:j]})
+			i = j
+		}
+	}
+	return cur
+}
+
+func (x *sx) String() string {
+	if x.list == nil {
+		return x.atom
+	}
+	var parts []string
+	for _, e := range x.list {
+		parts = append(parts, e.String())
+	}
+	return "(" + strings.Join(parts, " ") + ")"
+}
+
+// bvValue parses #x.. / #b.. / (_ bvN w) into an unsigned value and width.
+func bvValue(x *sx) (uint64, int, bool) {
+	if x.list == nil {
+		a := x.atom
+		if strings.HasPrefix(a, "#x") {
+			v, err := strconv.ParseUint(a[2:], 16, 64)
+			return v, 4 * (len(a) - 2), err == nil
+		}
+		if strings.HasPrefix(a, "#b") {
+			v, err := strconv.ParseUint(a[2:], 2, 64)
+			return v, len(a) - 2, err == nil
+		}
+		return 0, 0, false
+	}
+	if len(x.list) == 3 && x.list[0].atom == "_" && strings.HasPrefix(x.list[1].atom, "bv") {
+		v, err := strconv.ParseUint(x.list[1].atom[2:], 10, 64)
+		w, _ := strconv.Atoi(x.list[2].atom)
+		return v, w, err == nil
+	}
+	return 0, 0, false
+}
+
+func fpValue(x *sx) (float64, bool) {
+	if x.list != nil && len(x.list) == 4 && x.list[0].atom == "fp" {
+		s, _, ok1 := bvValue(x.list[1])
+		e, _, ok2 := bvValue(x.list[2])
+		m, _, ok3 := bvValue(x.list[3])
+		if ok1 && ok2 && ok3 {
+			return math.Float64frombits(s<<63 | e<<52 | m), true
+		}
+	}
+	if x.list != nil && len(x.list) == 4 && x.list[0].atom == "_" {
+		switch x.list[1].atom {
+		case "+zero":
+			return 0, true
+		case "-zero":
+			return math.Copysign(0, -1), true
+		case "+oo":
+			return math.Inf(1), true
+		case "-oo":
+			return math.Inf(-1), true
+		case "NaN":
+			return math.NaN(), true
+		}
+	}
+	return 0, false
+}
+
+// getValues runs the script with (get-value (terms...)) appended and returns the answers in order.
+func getValues(dir, tag, script string, terms []string, timeout time.Duration) ([]*sx, string) {
+	if len(terms) == 0 {
+		return nil, ""
+	}
+	file := filepath.Join(dir, tag+".smt2")
+	body := script + "(get-value (" + strings.Join(terms, " ") + "))\n"
+	os.WriteFile(file, []byte(body), 0o644)
+	// cvc5 needs produce-models; the scripts already set it when they were built for the race
+	for _, s := range []solverSpec{solvers[0], solvers[2], solvers[3]} {
+		r := runSolver(context.Background(), s, file, timeout)
+		if r.verdict != "sat" {
+			continue
+		}
+		out := r.out
+		i := strings.Index(out, "sat")
+		xs := parseSx(out[i+3:])
+		if len(xs) == 0 || xs[0].list == nil || len(xs[0].list) != len(terms) {
+			continue
+		}
+		var vals []*sx
+		ok := true
+		for _, p := range xs[0].list {
+			if p.list == nil || len(p.list) != 2 {
+				ok = false
+				break
+			}
+			vals = append(vals, p.list[1])
+		}
+		if ok {
+			return vals, s.name
+		}
+	}
+	return nil, ""
+}
+
+func goBytesLit(b []byte) string {
+	var sb strings.Builder
+	sb.WriteString("[]byte{")
+	for i, c := range b {
+		if i > 0 {
+			sb.WriteString(", ")
+		}
+		fmt.Fprintf(&sb, "0x%02x", c)
+	}
+	sb.WriteString("}")
+	return sb.String()
+}
+
 func (e *Engine) replay(ob *Obligation, dir string) *ReplayResult {
-	return &ReplayResult{Note: "replay not available for this obligation kind"}
+	rr := &ReplayResult{Inputs: map[string]string{}}
+	ri := ob.Replay
+	if ri == nil || ri.Fn == nil {
+		rr.Note = "replay not available: no parameter information for this obligation"
+		return rr
+	}
+	fn := ri.Fn
+	if fn.Signature.Recv() != nil || fn.Parent() != nil || len(fn.FreeVars) > 0 {
+		rr.Note = "replay not available: methods and closures need an object graph, only plain functions over values are replayed"
+		return rr
+	}
+	kinds := make([]string, len(ri.Params))
+	for i, p := range ri.Params {
+		kinds[i] = replayableType(p.Typ)
+		if kinds[i] == "" {
+			rr.Note = fmt.Sprintf("replay not available: parameter %s has type %s", fn.Params[i].Name(), p.Typ)
+			return rr
+		}
+	}
+	const tail = "(check-sat)\n"
+	if !strings.HasSuffix(ob.Script, tail) {
+		rr.Note = "replay not available: unexpected script shape"
+		return rr
+	}
+	os.MkdirAll(dir, 0o755)
+	base := ob.Script[:len(ob.Script)-len(tail)]
+	// pass 1: scalars and lengths
+	var terms []string
+	for i, p := range ri.Params {
+		switch kinds[i] {
+		case "int", "bool", "float64":
+			terms = append(terms, p.T.S)
+		case "string":
+			terms = append(terms, "(st_len "+p.T.S+")")
+		case "bytes":
+			terms = append(terms, "(s_len "+p.T.S+")")
+		}
+	}
+	// predicted results (post obligations): integers, booleans, and whether an error is nil
+	nparamTerms := len(terms)
+	resKinds := []string{}
+	predictable := ob.Kind == "post" && len(ob.ResultVals) == fn.Signature.Results().Len() && len(ob.ResultVals) > 0
+	if predictable {
+		for i, r := range ob.ResultVals {
+			rt := fn.Signature.Results().At(i).Type()
+			k := replayableType(rt)
+			switch {
+			case k == "int" || k == "bool":
+				resKinds = append(resKinds, k)
+				terms = append(terms, r.T.S)
+			case types.Identical(rt, types.Universe.Lookup("error").Type()):
+				resKinds = append(resKinds, "error")
+				terms = append(terms, "(= "+r.T.S+" if_nil)")
+			case k == "string":
+				resKinds = append(resKinds, "strlen")
+				terms = append(terms, "(st_len "+r.T.S+")")
+			case k == "bytes":
+				resKinds = append(resKinds, "byteslen")
+				terms = append(terms, "(s_len "+r.T.S+")")
+			default:
+				predictable = false
+			}
+		}
+		if !predictable {
+			terms = terms[:nparamTerms]
+		}
+	}
+	// prefer a small counterexample: bound the lengths first, then retry unbounded
+	var vals []*sx
+	var solver string
+	type attempt struct {
+		bound int
+		first bool
+	}
+	var attempts []attempt
+	if len(ob.FirstIter) > 0 {
+		attempts = append(attempts, attempt{16, true}, attempt{4096, true})
+	}
+	attempts = append(attempts, attempt{16, false}, attempt{256, false}, attempt{4096, false}, attempt{0, false})
+	for _, at := range attempts {
+		bound := at.bound
+		b := base
+		if at.first {
+			for _, f := range ob.FirstIter {
+				b += "(assert " + f + ")\n"
+			}
+		}
+		if bound > 0 {
+			any := false
+			for i, p := range ri.Params {
+				switch kinds[i] {
+				case "string":
+					b += fmt.Sprintf("(assert (bvule (st_len %s) #x%016x))\n", p.T.S, bound)
+					any = true
+				case "bytes":
+					b += fmt.Sprintf("(assert (bvule (s_len %s) #x%016x))\n", p.T.S, bound)
+					any = true
+				}
+			}
+			if !any && !at.first {
+				continue
+			}
+		}
+		vals, solver = getValues(dir, "pass1", b+tail, terms, 20*time.Second)
+		if vals != nil {
+			base = b
+			break
+		}
+	}
+	if vals == nil {
+		rr.Note = "no model values could be read back (solver did not reproduce the model within the replay timeout)"
+		return rr
+	}
+	args := make([]string, len(ri.Params))
+	var fix []string
+	lens := make([]int, len(ri.Params))
+	for i, p := range ri.Params {
+		v := vals[i]
+		switch kinds[i] {
+		case "int":
+			u, w, ok := bvValue(v)
+			if !ok {
+				rr.Note = "cannot read model value " + v.String()
+				return rr
+			}
+			fix = append(fix, fmt.Sprintf("(= %s %s)", p.T.S, v.String()))
+			tn := types.TypeString(p.Typ, func(*types.Package) string { return "" })
+			if isSigned(p.Typ) {
+				sv := int64(u)
+				if w < 64 && u&(1<<(uint(w)-1)) != 0 {
+					sv = int64(u) - (1 << uint(w))
+				}
+				args[i] = fmt.Sprintf("%s(%d)", tn, sv)
+				if sv == math.MinInt64 {
+					args[i] = fmt.Sprintf("%s(math.MinInt64)", tn)
+				}
+			} else {
+				args[i] = fmt.Sprintf("%s(%d)", tn, u)
+			}
+		case "bool":
+			args[i] = v.String()
+			fix = append(fix, fmt.Sprintf("(= %s %s)", p.T.S, v.String()))
+		case "float64":
+			f, ok := fpValue(v)
+			if !ok {
+				rr.Note = "cannot read model value " + v.String()
+				return rr
+			}
+			args[i] = fmt.Sprintf("math.Float64frombits(0x%016x)", math.Float64bits(f))
+		case "string", "bytes":
+			u, _, ok := bvValue(v)
+			if !ok || u > replayMaxLen {
+				rr.Note = fmt.Sprintf("model value for len(%s) is %s: too large to materialise", fn.Params[i].Name(), v.String())
+				return rr
+			}
+			lens[i] = int(u)
+			sel := "st_len"
+			if kinds[i] == "bytes" {
+				sel = "s_len"
+			}
+			fix = append(fix, fmt.Sprintf("(= (%s %s) %s)", sel, p.T.S, v.String()))
+		}
+	}
+	// pass 2: contents, with the scalars fixed so that the second model agrees with the first
+	terms = nil
+	for i, p := range ri.Params {
+		for k := 0; k < lens[i]; k++ {
+			switch kinds[i] {
+			case "string":
+				terms = append(terms, fmt.Sprintf("(select (st_arr %s) (bvadd (st_off %s) #x%016x))", p.T.S, p.T.S, k))
+			case "bytes":
+				if ri.MemBV8 == "" {
+					terms = append(terms, "#x00")
+				} else {
+					terms = append(terms, fmt.Sprintf("(select (select %s (s_reg %s)) (bvadd (s_off %s) #x%016x))", ri.MemBV8, p.T.S, p.T.S, k))
+				}
+			}
+		}
+	}
+	var content []*sx
+	if len(terms) > 0 {
+		s2 := base
+		for _, f := range fix {
+			s2 += "(assert " + f + ")\n"
+		}
+		content, _ = getValues(dir, "pass2", s2+tail, terms, 30*time.Second)
+		if content == nil {
+			rr.Note = "model contents could not be read back"
+			return rr
+		}
+	}
+	ci := 0
+	for i := range ri.Params {
+		if kinds[i] != "string" && kinds[i] != "bytes" {
+			continue
+		}
+		buf := make([]byte, lens[i])
+		for k := range buf {
+			u, _, _ := bvValue(content[ci])
+			buf[k] = byte(u)
+			ci++
+		}
+		if kinds[i] == "string" {
+			args[i] = "string(" + goBytesLit(buf) + ")"
+		} else {
+			args[i] = goBytesLit(buf)
+			if lens[i] == 0 {
+				args[i] = "[]byte{}"
+			}
+		}
+	}
+	for i, a := range args {
+		name := fn.Params[i].Name()
+		show := a
+		if len(show) > 400 {
+			show = show[:400] + "..."
+		}
+		rr.Inputs[name] = show
+	}
+	// the test
+	pkgDir := ""
+	if fn.Pkg != nil {
+		pkgDir = strings.TrimPrefix(strings.TrimPrefix(fn.Pkg.Pkg.Path(), modPath), "/")
+	}
+	nres := fn.Signature.Results().Len()
+	var lhs []string
+	for i := 0; i < nres; i++ {
+		lhs = append(lhs, fmt.Sprintf("r%d", i))
+	}
+	call := fn.Name() + "(" + strings.Join(args, ", ") + ")"
+	var post string
+	if ob.Kind == "post" && ob.ClauseExpr != nil {
+		names := map[string]string{}
+		for i, p := range fn.Params {
+			names[p.Name()] = fmt.Sprintf("a%d", i)
+		}
+		for i := 0; i < nres; i++ {
+			names[fmt.Sprintf("r%d", i)] = fmt.Sprintf("r%d", i)
+			if n := fn.Signature.Results().At(i).Name(); n != "" && n != "_" {
+				names[n] = fmt.Sprintf("r%d", i)
+			}
+		}
+		if nres == 1 {
+			names["result"] = "r0"
+		}
+		if nres > 0 && types.Identical(fn.Signature.Results().At(nres-1).Type(), types.Universe.Lookup("error").Type()) {
+			if _, ok := names["err"]; !ok {
+				names["err"] = fmt.Sprintf("r%d", nres-1)
+			}
+		}
+		if g, ok := exprToGo(ob.ClauseExpr, names); ok {
+			post = g
+		}
+	}
+	var src strings.Builder
+	fmt.Fprintf(&src, "package %s\n\nimport (\n\t\"fmt\"\n\t\"math\"\n\t\"testing\"\n)\n\nvar _ = math.Pi\n\n", fn.Pkg.Pkg.Name())
+	fmt.Fprintf(&src, "// replay of the counterexample for obligation %s\nfunc TestGovcReplay(t *testing.T) {\n", ob.Name)
+	src.WriteString("\tdefer func() {\n\t\tif r := recover(); r != nil {\n\t\t\tfmt.Printf(\"GOVC-REPLAY panic: %v\\n\", r)\n\t\t}\n\t}()\n")
+	for i, a := range args {
+		fmt.Fprintf(&src, "\ta%d := %s\n", i, a)
+	}
+	var callArgs []string
+	for i := range args {
+		callArgs = append(callArgs, fmt.Sprintf("a%d", i))
+	}
+	call = fn.Name() + "(" + strings.Join(callArgs, ", ") + ")"
+	if nres > 0 {
+		fmt.Fprintf(&src, "\t%s := %s\n", strings.Join(lhs, ", "), call)
+		for _, l := range lhs {
+			fmt.Fprintf(&src, "\t_ = %s\n", l)
+		}
+		fmt.Fprintf(&src, "\tfmt.Printf(\"GOVC-REPLAY returned: %s\\n\", %s)\n", strings.Repeat("%#v ", nres), strings.Join(lhs, ", "))
+	} else {
+		fmt.Fprintf(&src, "\t%s\n\tfmt.Println(\"GOVC-REPLAY returned\")\n", call)
+	}
+	if predictable {
+		for i, k := range resKinds {
+			switch k {
+			case "int":
+				fmt.Fprintf(&src, "\tfmt.Printf(\"GOVC-REPLAY r%d=%%d\\n\", int64(r%d))\n", i, i)
+			case "bool":
+				fmt.Fprintf(&src, "\tfmt.Printf(\"GOVC-REPLAY r%d=%%v\\n\", r%d)\n", i, i)
+			case "error":
+				fmt.Fprintf(&src, "\tfmt.Printf(\"GOVC-REPLAY r%d=%%v\\n\", r%d == nil)\n", i, i)
+			case "strlen", "byteslen":
+				fmt.Fprintf(&src, "\tfmt.Printf(\"GOVC-REPLAY r%d=%%d\\n\", len(r%d))\n", i, i)
+			}
+		}
+	}
+	if post != "" {
+		fmt.Fprintf(&src, "\tfmt.Printf(\"GOVC-REPLAY clause: %%v\\n\", %s)\n", post)
+	}
+	src.WriteString("}\n")
+	testFile := filepath.Join(dir, "replay_"+sanitize(ob.Name)+"_test.go")
+	os.WriteFile(testFile, []byte(src.String()), 0o644)
+	rr.Test = testFile
+	rr.Source = src.String()
+	if len(rr.Source) > 20000 {
+		rr.Source = rr.Source[:20000] + "\n// (truncated)"
+	}
+	target := filepath.Join(e.RepoDir, pkgDir, "zz_govc_replay_test.go")
+	ov, _ := json.Marshal(map[string]interface{}{"Replace": map[string]string{target: testFile}})
+	ovFile := filepath.Join(dir, "overlay.json")
+	os.WriteFile(ovFile, ov, 0o644)
+	ctx, cancel := context.WithTimeout(context.Background(), 120*time.Second)
+	defer cancel()
+	cmd := exec.CommandContext(ctx, "go", "test", "-overlay", ovFile, "-v", "-vet=off", "-count=1", "-timeout", "20s", "-run", "^TestGovcReplay$", "./"+pkgDir)
+	cmd.Dir = e.RepoDir
+	cmd.Env = append(osEnviron(), "GOFLAGS=-mod=mod", "GOPROXY=off", "GOSUMDB=off", "GOTOOLCHAIN=local")
+	out, _ := cmd.CombinedOutput()
+	text := string(out)
+	if len(text) > 4000 {
+		text = text[:4000]
+	}
+	rr.Output = text
+	panicked := strings.Contains(text, "GOVC-REPLAY panic:") || strings.Contains(text, "fatal error:")
+	timedOut := strings.Contains(text, "test timed out")
+	clauseFalse := strings.Contains(text, "GOVC-REPLAY clause: false")
+	switch {
+	case panicked:
+		rr.Confirmed = true
+		rr.Note = "the real function panics on the model's input (model read back from " + solver + ")"
+	case timedOut && ob.Kind == "variant":
+		rr.Confirmed = true
+		rr.Note = "the real function does not return within 20 s on the model's input"
+	case timedOut:
+		rr.Confirmed = true
+		rr.Note = "the real function does not return within 20 s on the model's input"
+	case predictable && agrees(text, resKinds, vals[nparamTerms:], fn):
+		rr.Confirmed = true
+		rr.Note = "the real function returns, on the model's input, exactly the results the solver predicted for it, and for those results the clause is false (model read back from " + solver + ")"
+	case clauseFalse:
+		rr.Confirmed = true
+		rr.Note = "the clause evaluates to false on the results the real function returned"
+	case !strings.Contains(text, "GOVC-REPLAY returned"):
+		rr.Note = "the replay test did not run (see output)"
+	default:
+		rr.Note = "the real function returned normally on the model's input; the obligation talks about a state the replay cannot observe (or the model relies on an uninterpreted function)"
+	}
+	return rr
+}
+
+// exprToGo translates the executable fragment of the contract language.
+func exprToGo(x Expr, names map[string]string) (string, bool) {
+	switch t := x.(type) {
+	case *EIdent:
+		if t.Name == "nil" || t.Name == "true" || t.Name == "false" {
+			return t.Name, true
+		}
+		if n, ok := names[t.Name]; ok {
+			return n, true
+		}
+		return "", false
+	case *ELit:
+		switch t.Kind {
+		case "int":
+			if t.Neg {
+				return fmt.Sprintf("(-%d)", t.I), true
+			}
+			return fmt.Sprintf("%d", t.I), true
+		case "bool":
+			return fmt.Sprintf("%v", t.B), true
+		case "nil":
+			return "nil", true
+		}
+		return "", false
+	case *EUnary:
+		a, ok := exprToGo(t.X, names)
+		if !ok {
+			return "", false
+		}
+		switch t.Op {
+		case "!", "-":
+			return "(" + t.Op + a + ")", true
+		}
+		return "", false
+	case *EBinary:
+		a, ok1 := exprToGo(t.X, names)
+		b, ok2 := exprToGo(t.Y, names)
+		if !ok1 || !ok2 {
+			return "", false
+		}
+		switch t.Op {
+		case "==>":
+			return "(!(" + a + ") || (" + b + "))", true
+		case "<==>":
+			return "((" + a + ") == (" + b + "))", true
+		case "&&", "||", "==", "!=", "<", "<=", ">", ">=", "+", "-", "*":
+			return "(" + a + " " + t.Op + " " + b + ")", true
+		}
+		return "", false
+	case *ECall:
+		if t.Fn == "len" && len(t.Args) == 1 {
+			a, ok := exprToGo(t.Args[0], names)
+			if ok {
+				return "len(" + a + ")", true
+			}
+		}
+		return "", false
+	case *EIndex:
+		a, ok1 := exprToGo(t.X, names)
+		b, ok2 := exprToGo(t.I, names)
+		if ok1 && ok2 {
+			return a + "[" + b + "]", true
+		}
+		return "", false
+	}
+	return "", false
+}
+
+// agrees: the observed results printed by the replay test equal the model's predicted results.
+// Strings and byte slices are compared by length only when an integer or boolean result is also
+// compared; a prediction made only of lengths is not taken as agreement.
+func agrees(out string, kinds []string, pred []*sx, fn *ssa.Function) bool {
+	if len(pred) != len(kinds) {
+		return false
+	}
+	strong := false
+	for i, k := range kinds {
+		marker := fmt.Sprintf("GOVC-REPLAY r%d=", i)
+		j := strings.Index(out, marker)
+		if j < 0 {
+			return false
+		}
+		rest := out[j+len(marker):]
+		if e := strings.IndexByte(rest, '\n'); e >= 0 {
+			rest = rest[:e]
+		}
+		rest = strings.TrimSpace(rest)
+		switch k {
+		case "int", "strlen", "byteslen":
+			u, w, ok := bvValue(pred[i])
+			if !ok {
+				return false
+			}
+			want := int64(u)
+			rt := fn.Signature.Results().At(i).Type()
+			if k == "int" && !isSigned(rt) {
+				if strconv.FormatUint(u, 10) != strings.TrimPrefix(rest, "+") && fmt.Sprint(int64(u)) != rest {
+					return false
+				}
+			} else {
+				if w < 64 && u&(1<<(uint(w)-1)) != 0 {
+					want = int64(u) - (1 << uint(w))
+				}
+				if fmt.Sprint(want) != rest {
+					return false
+				}
+			}
+			if k == "int" {
+				strong = true
+			}
+		case "bool", "error":
+			if pred[i].String() != rest {
+				return false
+			}
+			strong = true
+		}
+	}
+	return strong
 }
